@@ -67,11 +67,13 @@ Inductive event :=
 | EMail (from : bytes) (o : mail_opts) (r : berr)
 | ERcpt (to : bytes) (o : rcpt_opts) (r : berr)
 | EData (got : bytes) (term : option rerr) (r : berr) (panic : bool)   (* Session.Data / LMTPData on the DATA path *)
+| EBdatStart                                         (* ghost: a chunked transfer's delivery goroutine is started *)
 | EDelivery (got : bytes) (term : option rerr) (r : berr) (panic : bool) (* ... on the BDAT path (own goroutine) *)
 | EReset
 | ELogout
 | EAuth (mech : bytes) (r : berr)
 | EAuthNext (resp : option bytes) (challenge : bytes) (done : bool) (r : berr)
+| EAuthOk                                            (* ghost: the AUTH exchange succeeded (235) *)
 | EClose                                             (* Conn.Close closed the socket *)
 | EPanic                                             (* a panic was recovered in handle *)
 | ETlsStart (ok : bool)                              (* STARTTLS handshake result *)
@@ -168,8 +170,8 @@ Definition bd_finish (b : bdat) (term : option rerr) : bdat * list event :=
 Definition bd_new (p : data_plan) (rcpts : list bytes) (status_panic : bool) : bdat * list event :=
   let b := mkBD p [] None rcpts (dp_panic p || status_panic) in
   match dp_stop p with
-  | Some 0%N => bd_finish b None
-  | _ => (b, [])
+  | Some 0%N => let '(b', ev) := bd_finish b None in (b', EBdatStart :: ev)
+  | _ => (b, [EBdatStart])
   end.
 
 (* io.Copy(c.bdatPipe, chunk) for the octets [chunk] obtained from the
@@ -769,7 +771,7 @@ Definition handle_auth (cfg : config) (c : conn) (arg : bytes) : hres :=
           let '(c2, ev, ok) := auth_loop (ap_steps p) c1 ir in
           if ok then
             (upd_did_auth c2 true,
-             EAuth mech BNil :: ev ++ [reply 235 (2, 0, 0)%Z (bs "Authentication succeeded")])
+             EAuth mech BNil :: ev ++ [reply 235 (2, 0, 0)%Z (bs "Authentication succeeded"); EAuthOk])
           else (c2, EAuth mech BNil :: ev)
       | e => (c1, [EAuth mech e; reply_err 454 (4, 7, 0)%Z e])
       end
